@@ -1,8 +1,890 @@
-//! C11 I/O helpers invariant under chunking and transient errors — not built yet.
+//! C11 — I/O helpers are invariant under chunking and transient errors.
+//!
+//! Scripted in-memory streams (`c11_streams.rs`) drive the real compio-io
+//! helpers; every call of the stream follows a script step {transfer <= k
+//! bytes, Interrupted, other error kind, Ok(0)} and is logged. The oracle is a
+//! function of that log: destination content = bytes the stream delivered
+//! (Vec reference), pre-existing content preserved, consumed = reported,
+//! documented error kinds, no panic from compio, bounded number of calls.
+//!
+//! Enumeration: payload length n <= bound, every composition of n into chunk
+//! sizes x every single position of an injected Interrupted / other error /
+//! early Ok(0) x destination capacities / start positions / member layouts
+//! (an odometer over all choice sequences, sharded by index). On top: seeded
+//! samples of the same space and seeded large scripts (n <= 4096, several
+//! faults).
 
-use vcommon::Args;
+#[path = "c11_streams.rs"]
+mod streams;
+#[path = "c11_read.rs"]
+mod rd;
+#[path = "c11_write.rs"]
+mod wr;
+#[path = "c11_mem.rs"]
+mod mem;
 
-pub fn main(_args: &Args) {
-    eprintln!("c11: not implemented");
-    std::process::exit(3);
+use std::{
+    future::Future,
+    io::{self, ErrorKind},
+};
+
+use serde::{Deserialize, Serialize};
+use streams::*;
+use vcommon::{Args, Report, Rng, json, panics, task::block_on_bounded};
+
+use crate::choose::{Chooser, Odometer, RandomChooser};
+
+// ---------------------------------------------------------------------------
+// Case
+// ---------------------------------------------------------------------------
+
+/// One fully explicit program (also the replay format).
+#[derive(Clone, Debug, Default, Serialize, Deserialize)]
+#[serde(default)]
+pub struct Case {
+    /// Helper name (see `helpers()`).
+    pub h: String,
+    /// Payload length.
+    pub n: usize,
+    /// Script of the primary scripted stream.
+    pub script: Vec<Step>,
+    /// Script of the second stream (copy: writer side; split: writer side).
+    pub script2: Vec<Step>,
+    /// Destination / buffer capacity (helper specific).
+    pub cap: usize,
+    /// Pre-existing content (length or mode, helper specific).
+    pub pre: usize,
+    /// Start position / offset.
+    pub pos: u64,
+    /// Helper specific extra choice.
+    pub aux: usize,
+    /// Member capacities (vectored read) / lengths (vectored write).
+    pub members: Vec<usize>,
+    /// Scripted stream implements vectored I/O natively.
+    pub native: bool,
+    /// Payload flavour: 0 distinct bytes, 1 ascii, 2 multi-byte utf-8, 3 invalid utf-8.
+    pub text: u8,
+}
+
+pub fn payload(n: usize, text: u8) -> Vec<u8> {
+    match text {
+        0 => (0..n).map(|i| 1 + ((i * 37) % 199) as u8).collect(),
+        1 => (0..n).map(|i| b'a' + (i % 26) as u8).collect(),
+        _ => {
+            let chars = ['a', 'é', '€', '😀', 'z', 'ß'];
+            let mut s = String::new();
+            let mut i = 0;
+            while s.len() < n {
+                let ch = chars[i % chars.len()];
+                i += 1;
+                if s.len() + ch.len_utf8() <= n {
+                    s.push(ch);
+                } else {
+                    s.push('x');
+                }
+            }
+            let mut v = s.into_bytes();
+            if text == 3 && n > 0 {
+                v[n / 2] = 0xFF;
+            }
+            v
+        }
+    }
+}
+
+/// Marker bytes for pre-existing content (disjoint from `payload(_, 0)`).
+pub fn marks(n: usize) -> Vec<u8> {
+    (0..n).map(|i| 200 + (i % 56) as u8).collect()
+}
+
+pub fn uniq(mut v: Vec<usize>) -> Vec<usize> {
+    v.sort_unstable();
+    v.dedup();
+    v
+}
+
+pub fn caps(n: usize) -> Vec<usize> {
+    uniq(vec![0, 1, n.saturating_sub(1), n, n + 1, 2 * n])
+}
+
+pub fn pick(ch: &mut dyn Chooser, xs: &[usize]) -> usize {
+    xs[ch.choose(xs.len())]
+}
+
+/// Member layouts with total `c` (two members).
+pub fn patterns2(c: usize) -> Vec<Vec<usize>> {
+    let mut v = vec![vec![0, c], vec![c, 0]];
+    if c >= 2 {
+        v.push(vec![1, c - 1]);
+        v.push(vec![c - 1, 1]);
+        v.push(vec![c / 2, c - c / 2]);
+    }
+    v.sort();
+    v.dedup();
+    v
+}
+
+/// Member layouts with total `c`.
+pub fn patterns(c: usize) -> Vec<Vec<usize>> {
+    let mut v = patterns2(c);
+    v.push(vec![c]);
+    v.push(vec![]);
+    if c >= 2 {
+        v.push(vec![c / 2, 0, c - c / 2]);
+        v.push(vec![0, 1, 0, c - 1, 0]);
+    }
+    if (3..=6).contains(&c) {
+        v.push(vec![1; c]);
+    }
+    if c == 0 {
+        v.push(vec![0, 0, 0]);
+    }
+    v.retain(|m| m.iter().sum::<usize>() == c);
+    v.sort();
+    v.dedup();
+    v
+}
+
+pub fn pick_members(ch: &mut dyn Chooser, c: usize, two: bool) -> Vec<usize> {
+    let p = if two { patterns2(c) } else { patterns(c) };
+    p[ch.choose(p.len())].clone()
+}
+
+fn cap_class(cap: usize, n: usize) -> &'static str {
+    if cap == 0 {
+        "0"
+    } else if cap == n {
+        "n"
+    } else if cap == 1 {
+        "1"
+    } else if cap + 1 == n {
+        "n-1"
+    } else if cap == n + 1 {
+        "n+1"
+    } else if cap == 2 * n {
+        "2n"
+    } else if cap < n {
+        "<n"
+    } else {
+        ">n"
+    }
+}
+
+fn comp_class(script: &[Step]) -> &'static str {
+    let xs: Vec<usize> = script
+        .iter()
+        .filter_map(|s| if let Step::X(k) = s { Some(*k) } else { None })
+        .collect();
+    match xs.len() {
+        0 => "none",
+        1 => "one",
+        _ if xs.iter().all(|k| *k == 1) => "ones",
+        _ if xs[0] < xs[xs.len() - 1] => "short-head",
+        _ => "mixed",
+    }
+}
+
+fn fault_class(scripts: &[&[Step]], with_pos: bool) -> String {
+    let mut found: Vec<(Step, &'static str)> = Vec::new();
+    for s in scripts {
+        for (i, st) in s.iter().enumerate() {
+            if !matches!(st, Step::X(_)) {
+                let p = if i == 0 {
+                    "first"
+                } else if i + 1 == s.len() {
+                    "last"
+                } else {
+                    "mid"
+                };
+                found.push((*st, p));
+            }
+        }
+    }
+    match found.len() {
+        0 => "clean".into(),
+        1 => {
+            let k = match found[0].0 {
+                Step::I => "intr",
+                Step::E(_) => "err",
+                _ => "eof",
+            };
+            if with_pos { format!("{k}@{}", found[0].1) } else { k.into() }
+        }
+        _ => "multi".into(),
+    }
+}
+
+// ---------------------------------------------------------------------------
+// Checker context and oracles
+// ---------------------------------------------------------------------------
+
+pub struct Ck<'a> {
+    pub c: &'a Case,
+    pub h: &'static str,
+    pub tags: Vec<&'static str>,
+    /// Variants of the same API use (coverage only, not part of a violation's condition).
+    pub variants: Vec<&'static str>,
+    pub fails: Vec<(String, String)>,
+    /// Number of stream calls seen (0 = trivial case).
+    pub calls: usize,
+    pub saw: [bool; 4], // intr retried, error surfaced, eof error, short transfer
+}
+
+pub fn short(b: &[u8]) -> String {
+    if b.len() <= 24 {
+        format!("{b:?}")
+    } else {
+        format!("{:?}..(len {})", &b[..24], b.len())
+    }
+}
+
+pub fn terminal(log: &[Ev]) -> Option<(usize, Ev)> {
+    log.iter()
+        .copied()
+        .enumerate()
+        .find(|(_, e)| matches!(e, Ev::Err(_) | Ev::Zero))
+}
+
+impl<'a> Ck<'a> {
+    pub fn tag(&mut self, t: &'static str) {
+        if !self.tags.contains(&t) {
+            self.tags.push(t);
+        }
+    }
+
+    pub fn variant(&mut self, t: &'static str) {
+        if !self.variants.contains(&t) {
+            self.variants.push(t);
+        }
+    }
+
+    pub fn fail(&mut self, rule: &str, detail: String) {
+        if !self.fails.iter().any(|f| f.0 == rule) {
+            self.fails.push((rule.to_string(), detail));
+        }
+    }
+
+    pub fn note_log(&mut self, log: &[Ev], calls: usize) {
+        self.calls += calls;
+        for e in log {
+            match e {
+                Ev::Intr => self.saw[0] = true,
+                Ev::Err(_) => self.saw[1] = true,
+                Ev::Zero => self.saw[2] = true,
+                _ => {}
+            }
+        }
+        if log.iter().filter(|e| matches!(e, Ev::Data(_))).count() > 1 {
+            self.saw[3] = true;
+        }
+    }
+
+    /// Expected error of a helper that stops at the first terminal event.
+    fn check_kind<T>(&mut self, term: Option<(usize, Ev)>, log: &[Ev], zero: ErrorKind, res: &io::Result<T>) -> bool {
+        match term {
+            Some((i, ev)) => {
+                if i + 1 != log.len() {
+                    self.fail("call-after-failure", format!("stream called again after {ev:?}: log {log:?}"));
+                }
+                let want = match ev {
+                    Ev::Err(k) => KINDS[k as usize],
+                    _ => zero,
+                };
+                match res {
+                    Ok(_) => self.fail("error-swallowed", format!("stream returned {ev:?} but the helper returned Ok; log {log:?}")),
+                    Err(e) if e.kind() != want => self.fail(
+                        "wrong-error-kind",
+                        format!("stream returned {ev:?}: expected {want:?}, helper returned {:?}", e.kind()),
+                    ),
+                    Err(_) => {}
+                }
+                false
+            }
+            None => {
+                if let Err(e) = res {
+                    self.fail("spurious-error", format!("no failing stream call, helper returned {:?}; log {log:?}", e.kind()));
+                    false
+                } else {
+                    true
+                }
+            }
+        }
+    }
+
+    /// Fill-exactly helpers (`read_exact`, `read_vectored_exact`, `_at`).
+    /// `expect`: the bytes of the source from the start position.
+    pub fn exact(&mut self, log: &[Ev], calls: usize, delivered: usize, expect: &[u8], want: usize, res: &io::Result<()>, filled: &[u8]) {
+        self.note_log(log, calls);
+        if delivered > want {
+            self.fail("over-read", format!("{delivered} bytes taken from the source for a buffer of {want}"));
+        }
+        if log.contains(&Ev::ZeroCap) && want > 0 {
+            self.fail("zero-capacity-request", format!("helper offered a buffer without room; log {log:?}"));
+            return;
+        }
+        let ok = self.check_kind(terminal(log), log, ErrorKind::UnexpectedEof, res);
+        if ok {
+            if delivered != want {
+                self.fail("short-fill", format!("Ok(()) with {delivered} of {want} bytes transferred"));
+            } else if filled != &expect[..want.min(expect.len())] {
+                self.fail("content-mismatch", format!("destination {} != source {}", short(filled), short(&expect[..want])));
+            }
+        }
+    }
+
+    /// Read-until-EOF helpers. `limit`: `Take` limit if any.
+    #[allow(clippy::too_many_arguments)]
+    pub fn to_end(&mut self, log: &[Ev], calls: usize, delivered: &[u8], pre: &[u8], res: &io::Result<usize>, dest: &[u8], limit: Option<usize>, cap0: bool) {
+        self.note_log(log, calls);
+        if let Some(l) = limit
+            && delivered.len() > l
+        {
+            self.fail("over-read", format!("{} bytes taken from the source with limit {l}", delivered.len()));
+        }
+        let term = terminal(log);
+        let ok = match term {
+            Some((_, Ev::Zero)) => {
+                if let Some((i, _)) = term
+                    && i + 1 != log.len()
+                {
+                    self.fail("call-after-failure", format!("stream called again after end-of-file: log {log:?}"));
+                }
+                match res {
+                    Ok(_) => true,
+                    Err(e) => {
+                        self.fail("spurious-error", format!("end-of-file reached, helper returned {:?}", e.kind()));
+                        false
+                    }
+                }
+            }
+            Some(_) => self.check_kind(term, log, ErrorKind::UnexpectedEof, res),
+            None => {
+                let limited = limit.is_some_and(|l| delivered.len() == l);
+                let zero_ok = cap0 && log.last() == Some(&Ev::ZeroCap);
+                match res {
+                    Ok(_) if limited || zero_ok => true,
+                    Ok(t) => {
+                        self.fail("returned-before-eof", format!("Ok({t}) although the source never reported end-of-file; log {log:?}"));
+                        false
+                    }
+                    Err(e) => {
+                        self.fail("spurious-error", format!("no failing stream call, helper returned {:?}; log {log:?}", e.kind()));
+                        false
+                    }
+                }
+            }
+        };
+        if ok
+            && let Ok(t) = res
+            && *t != delivered.len()
+        {
+            self.fail("count-mismatch", format!("helper reported {t} bytes, source delivered {}", delivered.len()));
+        }
+        if !dest.starts_with(pre) {
+            self.fail("preexisting-overwritten", format!("buffer started with {}, now {}", short(pre), short(dest)));
+        } else if dest[pre.len()..] != *delivered {
+            let rule = if res.is_ok() { "content-mismatch" } else { "partial-data-dropped-on-error" };
+            self.fail(rule, format!("appended {} != delivered {}", short(&dest[pre.len()..]), short(delivered)));
+        }
+    }
+
+    /// Write-everything helpers. `src`: the bytes handed to the helper.
+    pub fn wexact(&mut self, log: &[Ev], calls: usize, accepted: &[u8], src: &[u8], res: &io::Result<()>) {
+        self.note_log(log, calls);
+        if !src.starts_with(accepted) {
+            self.fail("content-mismatch", format!("writer accepted {} which is not a prefix of {}", short(accepted), short(src)));
+            return;
+        }
+        if log.contains(&Ev::ZeroCap) && accepted.len() < src.len() {
+            // an empty write while data is left, returned as Ok(0)
+            self.fail("empty-write-request", format!("helper issued an empty write with data left; log {log:?}"));
+            return;
+        }
+        let ok = self.check_kind(terminal(log), log, ErrorKind::WriteZero, res);
+        if ok && accepted.len() != src.len() {
+            self.fail("silent-truncation", format!("Ok(()) with {} of {} bytes written", accepted.len(), src.len()));
+        }
+    }
+
+    /// Streams read piecewise by a user loop. `errs`: error kinds the user
+    /// saw; the helper under test does not retry anything itself.
+    pub fn collected(&mut self, log: &[Ev], calls: usize, delivered: &[u8], got: &[u8], errs: &[ErrorKind], ended_by_eof: bool, complete: bool) {
+        self.note_log(log, calls);
+        if !delivered.starts_with(got) {
+            self.fail("content-mismatch", format!("collected {} is not a prefix of delivered {}", short(got), short(delivered)));
+            return;
+        }
+        let faults: Vec<ErrorKind> = log
+            .iter()
+            .filter_map(|e| match e {
+                Ev::Intr => Some(ErrorKind::Interrupted),
+                Ev::Err(k) => Some(KINDS[*k as usize]),
+                _ => None,
+            })
+            .collect();
+        if faults != errs {
+            self.fail("error-sequence-mismatch", format!("stream failed with {faults:?}, caller saw {errs:?}"));
+        }
+        if ended_by_eof && complete {
+            if got.len() != delivered.len() {
+                self.fail("lost-bytes", format!("{} bytes delivered by the source, {} reached the caller before EOF", delivered.len(), got.len()));
+            }
+            if !matches!(log.iter().rev().find(|e| **e != Ev::ZeroCap), Some(Ev::Zero) | None) || (log.is_empty() && !delivered.is_empty()) {
+                self.fail("returned-before-eof", format!("caller saw EOF, the source did not report it; log {log:?}"));
+            } else if log.iter().all(|e| *e == Ev::ZeroCap) && !log.is_empty() {
+                self.fail("returned-before-eof", format!("caller saw EOF after zero-capacity requests only; log {log:?}"));
+            }
+        }
+    }
+}
+
+/// Run an always-ready future; `None` (and a violation) if it stays pending.
+pub fn exec<F: Future>(ck: &mut Ck<'_>, f: F) -> Option<F::Output> {
+    match block_on_bounded(f, 16) {
+        Ok(v) => Some(v),
+        Err(n) => {
+            ck.fail("pending-forever", format!("future still pending after {n} polls although every stream call is ready"));
+            None
+        }
+    }
+}
+
+#[macro_export]
+macro_rules! c11_go {
+    ($ck:expr, $f:expr) => {
+        match $crate::c11::exec($ck, $f) {
+            Some(v) => v,
+            None => return,
+        }
+    };
+}
+
+pub fn reader(c: &Case) -> RCore {
+    RCore::new(payload(c.n, c.text), c.script.clone())
+}
+
+pub fn writer(c: &Case, second: bool) -> WCore {
+    WCore::new(if second { c.script2.clone() } else { c.script.clone() }, c.n)
+}
+
+// ---------------------------------------------------------------------------
+// Helper registry
+// ---------------------------------------------------------------------------
+
+pub struct Helper {
+    pub name: &'static str,
+    /// 0: no script, 1: one script, 3: two scripts (one of them enumerated).
+    pub scripts: u8,
+    pub params: fn(&mut dyn Chooser, &mut Case),
+    pub run: fn(&Case, &mut Ck<'_>),
+}
+
+fn helpers() -> Vec<Helper> {
+    let mut v = Vec::new();
+    rd::register(&mut v);
+    wr::register(&mut v);
+    mem::register(&mut v);
+    v
+}
+
+// ---------------------------------------------------------------------------
+// Generation
+// ---------------------------------------------------------------------------
+
+fn composition(ch: &mut dyn Chooser, n: usize) -> Vec<Step> {
+    let mut v = Vec::new();
+    if n == 0 {
+        return v;
+    }
+    let mut cur = 1;
+    for _ in 1..n {
+        if ch.choose(2) == 1 {
+            v.push(Step::X(cur));
+            cur = 1;
+        } else {
+            cur += 1;
+        }
+    }
+    v.push(Step::X(cur));
+    v
+}
+
+fn inject(ch: &mut dyn Chooser, s: &mut Vec<Step>) {
+    let k = s.len();
+    let opt = ch.choose(1 + 3 * (k + 1));
+    if opt > 0 {
+        let kind = [Step::I, Step::E(0), Step::Z][(opt - 1) % 3];
+        s.insert((opt - 1) / 3, kind);
+    }
+}
+
+/// A few fixed scripts for the non-enumerated side of two-stream helpers.
+fn simple_script(ch: &mut dyn Chooser, n: usize) -> Vec<Step> {
+    match ch.choose(3) {
+        0 => vec![],
+        1 => vec![Step::X(1); n],
+        _ => vec![Step::X(2); n.div_ceil(2)],
+    }
+}
+
+fn gen_case(ch: &mut dyn Chooser, hs: &[Helper], hmask: &[bool], max_n: usize) -> Case {
+    let avail: Vec<usize> = (0..hs.len()).filter(|i| hmask[*i]).collect();
+    let hi = avail[ch.choose(avail.len())];
+    let h = &hs[hi];
+    let mut c = Case {
+        h: h.name.to_string(),
+        n: ch.choose(max_n + 1),
+        ..Default::default()
+    };
+    match h.scripts {
+        1 => {
+            c.script = composition(ch, c.n);
+            inject(ch, &mut c.script);
+        }
+        3 => {
+            if ch.choose(2) == 0 {
+                c.script = composition(ch, c.n);
+                inject(ch, &mut c.script);
+                c.script2 = simple_script(ch, c.n);
+            } else {
+                c.script2 = composition(ch, c.n);
+                inject(ch, &mut c.script2);
+                c.script = simple_script(ch, c.n);
+            }
+        }
+        _ => {}
+    }
+    (h.params)(ch, &mut c);
+    c
+}
+
+fn random_script(rng: &mut Rng, n: usize) -> Vec<Step> {
+    let scale = *rng.pick(&[1usize, 3, 16, 256, 4096]);
+    let pf = *rng.pick(&[0usize, 1, 1, 3]); // faults per 16 steps
+    let terminal = rng.chance(1, 4);
+    let mut v = Vec::new();
+    let mut left = n;
+    while left > 0 {
+        if rng.chance(pf, 16) {
+            v.push(Step::I);
+            continue;
+        }
+        if terminal && rng.chance(1, 24) {
+            v.push(if rng.chance(1, 2) { Step::Z } else { Step::E(rng.below(KINDS.len()) as u8) });
+        }
+        let k = (1 + rng.below(scale)).min(left);
+        v.push(Step::X(k));
+        left -= k;
+    }
+    if rng.chance(pf, 8) {
+        v.push(Step::I);
+    }
+    if terminal && rng.chance(1, 6) {
+        v.push(Step::E(rng.below(KINDS.len()) as u8));
+    }
+    v
+}
+
+fn gen_big(rng: &mut Rng, hs: &[Helper], hmask: &[bool], max_n: usize) -> Case {
+    let avail: Vec<usize> = (0..hs.len()).filter(|i| hmask[*i]).collect();
+    let h = &hs[*rng.pick(&avail)];
+    let n = match rng.below(4) {
+        0 => rng.below(max_n.min(16) + 1),
+        1 => rng.below(max_n.min(300) + 1),
+        _ => rng.below(max_n + 1),
+    };
+    let mut c = Case {
+        h: h.name.to_string(),
+        n,
+        ..Default::default()
+    };
+    if h.scripts >= 1 {
+        c.script = random_script(rng, n);
+    }
+    if h.scripts == 3 {
+        c.script2 = random_script(rng, n);
+    }
+    let mut ch = RandomChooser::new(rng.fork(7));
+    (h.params)(&mut ch, &mut c);
+    c
+}
+
+// ---------------------------------------------------------------------------
+// Execution
+// ---------------------------------------------------------------------------
+
+struct Exec {
+    /// (rule, detail)
+    fails: Vec<(String, String)>,
+    tags: String,
+    variants: String,
+    calls: usize,
+    saw: [bool; 4],
+    /// harness problem: (reason, note)
+    incon: Option<(String, String)>,
+}
+
+fn execute(c: &Case, h: &Helper) -> Exec {
+    let mut ck = Ck {
+        c,
+        h: h.name,
+        tags: Vec::new(),
+        variants: Vec::new(),
+        fails: Vec::new(),
+        calls: 0,
+        saw: [false; 4],
+    };
+    let mut incon = None;
+    let r = panics::catch(|| (h.run)(c, &mut ck));
+    if let Err(info) = r {
+        match attribute(&info) {
+            _ if info.message.contains(LIMIT_MARK) => {
+                ck.fail("endless-loop", format!("helper kept calling the stream: {}", info.message));
+            }
+            panics::Origin::Repo(loc) => {
+                let file = loc.rsplit_once(':').map_or(loc.as_str(), |x| x.0);
+                ck.fail(&format!("panic@{file}"), format!("panic in compio at {loc}: {}", info.message));
+            }
+            panics::Origin::Harness(loc) => {
+                incon = Some((format!("harness-panic@{loc}"), format!("harness panic {loc}: {} in {}", info.message, json!(c))));
+            }
+            panics::Origin::Other(loc) => {
+                // cannot be attributed to compio or the harness
+                let file = loc.rsplit_once(':').map_or(loc.as_str(), |x| x.0).to_string();
+                incon = Some((format!("unattributed-panic@{file}"), format!("unattributed panic {loc}: {} in {}", info.message, json!(c))));
+            }
+        }
+    }
+    Exec {
+        fails: ck.fails,
+        tags: ck.tags.iter().map(|t| format!("+{t}")).collect(),
+        variants: ck.variants.iter().map(|t| format!("~{t}")).collect(),
+        calls: ck.calls,
+        saw: ck.saw,
+        incon,
+    }
+}
+
+/// Where a captured panic comes from. Panics located in compio or harness
+/// files are attributed by their location; panics located in std/alloc
+/// (e.g. `capacity overflow`, raised on behalf of a caller) by the innermost
+/// compio or harness-module frame of the backtrace, skipping the frames of
+/// the panic hook itself.
+fn attribute(info: &panics::PanicInfo) -> panics::Origin {
+    let loc = format!("{}:{}", info.file, info.line);
+    let is_repo = |p: &str| p.starts_with("/repo/") || p.contains("/repo/compio");
+    let is_mod = |p: &str| p.contains("vpure/src/") || p.contains("vcommon/src/task.rs");
+    if is_repo(&info.file) {
+        return panics::Origin::Repo(loc.trim_start_matches("/repo/").to_string());
+    }
+    if is_mod(&info.file) {
+        return panics::Origin::Harness(loc);
+    }
+    if let Some(bt) = &info.backtrace {
+        for l in bt.lines() {
+            let Some(p) = l.trim().strip_prefix("at ") else { continue };
+            if is_repo(p) {
+                let p = p.trim_start_matches("/repo/");
+                // strip ":line:col"
+                let p = p.rsplit_once(':').map_or(p, |x| x.0);
+                return panics::Origin::Repo(p.to_string());
+            }
+            if is_mod(p) {
+                return panics::Origin::Harness(format!("{loc} via {p}"));
+            }
+        }
+    }
+    panics::Origin::Other(loc)
+}
+
+/// The case with only the fault steps of one kind kept (`None`: no faults).
+fn strip(c: &Case, keep: Option<u8>) -> Case {
+    let f = |s: &Vec<Step>| -> Vec<Step> {
+        s.iter()
+            .copied()
+            .filter(|st| match st {
+                Step::X(_) => true,
+                Step::I => keep == Some(0),
+                Step::E(_) => keep == Some(1),
+                Step::Z => keep == Some(2),
+            })
+            .collect()
+    };
+    let mut d = c.clone();
+    d.script = f(&c.script);
+    d.script2 = f(&c.script2);
+    d
+}
+
+/// Reduce a failing case to the weakest condition under which `rule` still
+/// fails: without pre-existing content if that is not needed, and with the
+/// weakest fault class ("any" if the fault-free variant fails the same way,
+/// else the single fault kind that suffices, else "multi"). Returns the
+/// reduced case, its tags and the fault class.
+fn minimise(c: &Case, h: &Helper, rule: &str, tags: &str) -> (Case, String, String) {
+    let fails = |d: &Case| -> Option<String> {
+        let e = execute(d, h);
+        e.fails.iter().any(|f| f.0 == rule).then_some(e.tags)
+    };
+    let mut cur = c.clone();
+    let mut tags = tags.to_string();
+    if cur.pre != 0 {
+        let mut d = cur.clone();
+        d.pre = 0;
+        if let Some(t) = fails(&d) {
+            cur = d;
+            tags = t;
+        }
+    }
+    let own = fault_class(&[&cur.script, &cur.script2], false);
+    if own == "clean" {
+        return (cur, tags, "any".into());
+    }
+    let d = strip(&cur, None);
+    if let Some(t) = fails(&d) {
+        return (d, t, "any".into());
+    }
+    if own != "multi" {
+        return (cur, tags, own);
+    }
+    for (k, name) in [(0u8, "intr"), (1, "err"), (2, "eof")] {
+        let d = strip(&cur, Some(k));
+        if let Some(t) = fails(&d) {
+            return (d, t, name.into());
+        }
+    }
+    (cur, tags, own)
+}
+
+fn pos_class(pos: u64, n: usize) -> &'static str {
+    if pos == 0 {
+        "0"
+    } else if pos < n as u64 {
+        "in"
+    } else if pos == n as u64 {
+        "end"
+    } else {
+        "beyond"
+    }
+}
+
+fn run_case(c: &Case, hs: &[Helper], rep: &mut Report, mode: &str) {
+    let Some(h) = hs.iter().find(|h| h.name == c.h) else {
+        rep.inconclusive("unknown-helper-in-replay");
+        return;
+    };
+    let ex = execute(c, h);
+    if let Some((reason, note)) = ex.incon {
+        rep.inconclusive(&reason);
+        rep.note(note);
+        return;
+    }
+    let trivial = ex.calls == 0 && ex.fails.is_empty() && h.scripts > 0;
+    if trivial {
+        rep.eval(None);
+    } else {
+        // fault coverage: helper x composition class x fault kind@position x capacity class
+        let mut sig = format!(
+            "{}|{}|{}|cap:{}",
+            h.name,
+            comp_class(if c.script.is_empty() { &c.script2 } else { &c.script }),
+            fault_class(&[&c.script, &c.script2], true),
+            cap_class(c.cap, c.n),
+        );
+        if mode == "big" {
+            sig.push_str("|big");
+        }
+        rep.eval(Some(sig));
+        // configuration coverage: helper x API variant x capacity class x position class
+        rep.sig(format!("{}{}{}|cap:{}|pos:{}", h.name, ex.tags, ex.variants, cap_class(c.cap, c.n), pos_class(c.pos, c.n)));
+    }
+    rep.floor("interrupted-retried-or-surfaced", ex.saw[0]);
+    rep.floor("error-kind-propagated", ex.saw[1]);
+    rep.floor("ok0-seen", ex.saw[2]);
+    rep.floor("multi-chunk-transfer", ex.saw[3]);
+    rep.max("payload_len", c.n as i64);
+    if rep.want_sample() && !trivial && c.n >= 3 && ex.fails.is_empty() {
+        rep.sample(json!({"mode": mode, "case": c}));
+    }
+    for (rule, what) in &ex.fails {
+        let (reduced, tags, cond) = minimise(c, h, rule, &ex.tags);
+        let sig = format!("C11/{rule}/{}/{cond}{tags}", h.name);
+        rep.violation(&sig, what, json!(reduced));
+    }
+}
+
+pub fn main(args: &Args) {
+    let mut rep = Report::from_args("C11", &args.str("leg", "native"), args);
+    let hs = helpers();
+    let shard = args.shard();
+    let nshards = args.nshards();
+    if args.flag("list") {
+        for h in &hs {
+            println!("{}", h.name);
+        }
+        return;
+    }
+    if let Some(path) = args.get("replay") {
+        let text = std::fs::read_to_string(path).expect("replay file");
+        let v: vcommon::Value = vcommon::serde_json::from_str(&text).expect("replay json");
+        match vcommon::serde_json::from_value::<Case>(v["program"].clone()) {
+            Ok(c) => run_case(&c, &hs, &mut rep, "replay"),
+            Err(_) => rep.inconclusive("replay-program-unparsable"),
+        }
+        rep.finish();
+        return;
+    }
+    // optional helper filter (substring)
+    let only = args.str("only", "");
+    let hmask: Vec<bool> = hs.iter().map(|h| only.is_empty() || h.name.contains(&only)).collect();
+    if !hmask.iter().any(|b| *b) {
+        rep.inconclusive("helper-filter-matches-nothing");
+        rep.finish();
+        return;
+    }
+
+    // --- exhaustive part: every case inside the bound, sharded by index
+    let ex_n = args.usize("ex-n", if args.thorough() { 9 } else { 7 });
+    if args.usize("ex", 1) != 0 {
+        let mut od = Odometer::new();
+        let mut idx: u64 = 0;
+        let mut complete = true;
+        while od.advance() {
+            let c = gen_case(&mut od, &hs, &hmask, ex_n);
+            if idx % nshards == shard {
+                run_case(&c, &hs, &mut rep, "exhaustive");
+            }
+            idx += 1;
+            if idx % 4096 == 0 && rep.out_of_time() {
+                complete = false;
+                break;
+            }
+        }
+        rep.set_exhaustive(complete);
+        rep.count("exhaustive_cases_total", idx as i64);
+        rep.note(format!("exhaustive bound: n<={ex_n}, all compositions x single fault x parameter classes; complete={complete}"));
+    }
+
+    let base = Rng::new(args.seed()).fork(shard + 1);
+    // --- seeded sample of the enumerated space (what the Miri leg runs)
+    let sample_n = args.usize("sample-n", ex_n);
+    for i in 0..args.usize("sample", 0) {
+        if rep.out_of_time() {
+            break;
+        }
+        let mut ch = RandomChooser::new(base.fork(0x5a00_0000 + i as u64));
+        let c = gen_case(&mut ch, &hs, &hmask, sample_n);
+        run_case(&c, &hs, &mut rep, "sample");
+    }
+    // --- seeded large scripts
+    let rnd_n = args.usize("rnd-n", 4096);
+    for i in 0..args.iters(20_000, 400_000) {
+        if i % 64 == 0 && rep.out_of_time() {
+            break;
+        }
+        let mut rng = base.fork(i as u64);
+        let c = gen_big(&mut rng, &hs, &hmask, rnd_n);
+        run_case(&c, &hs, &mut rep, "big");
+    }
+    rep.finish();
 }
